@@ -31,7 +31,7 @@ import time
 from harness import common, pool
 
 PID = "C15"
-TRANSLATORS = ["T-invfilters", "T-storedigest", "T-stateid", "T-pathslice"]
+TRANSLATORS = ["T-invfilters", "T-storedigest", "T-stateid", "T-pathslice", "T-probes"]
 
 # Genuine defects of halmos found by this check on the unchanged tree (see the final report).
 KNOWN = common.known_for("C15")  # entries live in /verif/known_findings.json
@@ -475,6 +475,107 @@ def check_state_ids(rep, name, trace, model, rerun):
     return res
 
 
+RCODE = {"sat": 0, "unsat": 1, "unknown": 2}
+
+
+def check_probes(rep, name, trace, model, rerun):
+    """'Any assertion inside a target is checked': the target transactions that ended in an assertion
+    failure while the frontier was computed (trace["asserts"], in order, each with the feasibility of
+    its path decided with z3 and the functions marked as reported before / after _compute_frontier
+    looked at it), the candidates handed to the solver (trace["handled"]) and the answers
+    (trace["probe_results"]), against
+      (spec)  every function with a feasible failing path gets a feasible candidate submitted; a
+              function is marked as reported only when an answer with a model exists for it;
+      (model) the regenerated decisions (Gen/GenProbes.v) run over the same events by the extracted
+              ProbeModel: the same candidates are submitted, the same functions end up marked."""
+    asserts = trace.get("asserts") or []
+    if not asserts:
+        return
+    handled = [u for u, _ in trace.get("handled") or []]
+    hset = set(handled)
+    names = trace.get("probe_names") or {}
+    results = {u: (r, hm) for u, r, hm in trace.get("probe_results") or []}
+    complete = all(u in results for u in handled)
+    fn = lambda p: names.get(str(p), p)  # noqa: E731
+    rep.count("l3_probes", "cases with assertion failures inside targets")
+    if any(a["feasible"] == 0 for a in asserts):
+        rep.count("l3_probes", "cases with a candidate refuted by the full path condition")
+    case = dict(rerun, asserts=asserts, handled=trace.get("handled"), probe_results=trace.get("probe_results"))
+    by_p = {}
+    for a in asserts:
+        by_p.setdefault(a["probe"], []).append(a)
+    # ---- spec: genuine failures are submitted
+    for p, lst in by_p.items():
+        feas = [a for a in lst if a["feasible"] == 1]
+        if feas and not any(a["uid"] in hset for a in feas):
+            subm = [a["seq"] for a in lst if a["uid"] in hset]
+            rep.fail("failing-input", f"L3 case {name}: the assertion inside {fn(p)} fails after the call sequence {feas[0]['seq']} (the path is feasible), but no feasible failure of "
+                     f"{fn(p)} was ever handed to the solver: the candidates submitted were {subm} (all refuted by their full path condition); the genuine failure was skipped "
+                     f"because the function was marked as reported ({[fn(q) for q in feas[0]['reported_before']]}) without a counterexample", case=case, sig={"defect": "probe-dropped"})
+    # ---- spec: marked only with a counterexample
+    if complete:
+        with_model = {a["probe"] for a in asserts if a["uid"] in results and results[a["uid"]][1]}
+        snaps = [("before " + str(a["seq"]), a["reported_before"]) for a in asserts] + [("after " + str(a["seq"]), a.get("reported_after") or []) for a in asserts]
+        fin = trace.get("reported_final") or {}
+        if fin.get("results_seen") == len(trace.get("probe_results") or []):
+            snaps.append(("at the end", fin.get("reported") or []))
+        for when, snap in snaps:
+            bad = [p for p in snap if p not in with_model]
+            if bad:
+                rep.fail("failing-input", f"L3 case {name}: {[fn(p) for p in bad]} is marked as reported ({when}) although no answer of the solver carried a model for it "
+                         f"(answers: {[(a['seq'], results.get(a['uid'])) for a in asserts if a['uid'] in hset]}): later failures of the function are not examined", case=case,
+                         sig={"defect": "probe-marked-without-counterexample"})
+                break
+    # ---- model
+    if model is None:
+        return
+    racy = any((a["probe"] in (a.get("reported_after") or [])) != (a["probe"] in a["reported_before"]) for a in asserts)
+    if racy:
+        rep.count("l3_probes", "cases where an answer arrived while a candidate was examined (model not compared)")
+        return
+    events, done, sub = [], set(), []
+    for a in asserts:
+        for k, u in enumerate(sub):
+            if k not in done and u in results and results[u][1] and by_uid_probe(asserts, u) in a["reported_before"]:
+                events.append([1, k, 0, 0])
+                done.add(k)
+        if a["uid"] in results:
+            r, hm = results[a["uid"]]
+            rc, hm = RCODE.get(r, 3), int(bool(hm))
+        else:
+            rc, hm = (0, 1) if a["feasible"] == 1 else (1, 0)
+        events.append([0, a["probe"], rc, hm])
+        if a["uid"] in hset:
+            sub.append(a["uid"])
+    for k in range(len(sub)):
+        if k not in done:
+            events.append([1, k, 0, 0])
+    out = model.batch([("c15_probes", [len(events)] + [z for e in events for z in e])])[0]
+    if out is None:
+        rep.fail("broken-tie", f"L3 case {name}: the probe model failed on the recorded events", case=case)
+        return
+    it = iter(out)
+    flags = [next(it) for _ in range(next(it))]
+    reported = [next(it) for _ in range(next(it))]
+    real_flags = [1 if a["uid"] in hset else 0 for a in asserts]
+    if flags != real_flags:
+        i = next(j for j, (x, y) in enumerate(zip(flags, real_flags)) if x != y)
+        a = asserts[i]
+        rep.fail("broken-tie", f"L3 case {name}: the failing path {a['seq']} of {fn(a['probe'])} (functions marked as reported at that moment: {[fn(q) for q in a['reported_before']]}) was "
+                 f"{'handed to the solver' if real_flags[i] else 'skipped'} by _compute_frontier; the regenerated decisions {'submit' if flags[i] else 'skip'} it", case=case)
+        return
+    if complete and (trace.get("reported_final") or {}).get("results_seen") == len(trace.get("probe_results") or []):
+        real = sorted((trace["reported_final"] or {}).get("reported") or [])
+        if sorted(set(reported)) != real:
+            rep.fail("broken-tie", f"L3 case {name}: functions marked as reported at the end: implementation {[fn(p) for p in real]}, regenerated decisions over the recorded answers {[fn(p) for p in sorted(set(reported))]}", case=case)
+            return
+    rep.coverage["probe_runs_compared"] = rep.coverage.get("probe_runs_compared", 0) + 1
+
+
+def by_uid_probe(asserts, u):
+    return next(a["probe"] for a in asserts if a["uid"] == u)
+
+
 def _by_terms(comps, uids):
     from harness import c15_lib as B
 
@@ -522,6 +623,9 @@ def check_l3(rep, case, out, model):
     sid = {"classes": None, "cause": None}
     if trace and trace.get("setup"):
         sid = check_state_ids(rep, name, trace, model, rerun)
+    # ---- spec vs implementation, model vs implementation: assertion failures inside targets
+    if trace:
+        check_probes(rep, name, trace, model, rerun)
     dup_dropped = False
     if trace and trace.get("setup"):
         kept = {u for f in trace["frontiers"].values() for u in f}
@@ -620,7 +724,9 @@ QUICK_CORPUS = {
     "value-needed", "time-after-other-call", "F9-roll", "setup-merge-time", "F12-probe", "value-balance",
     "branch-cond-arg-small", "branch-cond-arg-big", "branch-cond-arg-d3", "branch-cond-arg-late-store",
     "branch-cond-caller-eq", "branch-cond-value", "branch-cond-unrelated",
-    "branch-cond-related-lo", "branch-cond-related-hi", "branch-cond-forward-lo", "branch-cond-forward-hi",
+    "branch-cond-related-hi", "branch-cond-forward-hi",
+    "instances-tsel-second-hit", "instances-tsel-first-hit", "instances-tsel-holds", "instances-esel-first",
+    "probe-after-refuted-candidate", "probe-sibling-refuted-first", "probe-sibling-genuine-first", "probe-refuted-only",
 }
 
 
@@ -641,6 +747,12 @@ def gen_l3_cases(tier, r):
     # state identity: stored transaction values with a branch on them (see c15_lib.gen_branch_case)
     for j in range(3 if tier == "quick" else 60):
         cases.append(B.gen_branch_case(r, j, max_depth=2 if tier == "quick" else 3))
+    # per-address target resolution: several instances of one contract with their own selector filters
+    for j in range(2 if tier == "quick" else 40):
+        cases.append(B.gen_instances_case(r, j))
+    # assertions inside targets: refuted candidates before / beside genuine failures of the same function
+    for j in range(1 if tier == "quick" else 30):
+        cases.append(B.gen_probe_case(r, j, max_depth=2 if tier == "quick" else 3))
     return cases
 
 
